@@ -338,6 +338,10 @@ func init() {
 			st.setHeap(h, hs, store(st.heap(h, hs), x[0].T, ite(and(eq(e, "niliface"), eq(old, "0")), n, old)))
 			return Val{Tuple: []Val{{T: rec, Typ: resType(c, 0)}, {T: e, Typ: resType(c, 1)}}}
 		},
+		// encoding/csv writer: external stream, nothing of the repository's heap is touched
+		"encoding/csv.NewWriter":        pureFresh,
+		"(*encoding/csv.Writer).Write": pureFresh,
+		"(*encoding/csv.Writer).Flush": pureFresh,
 		"strings.HasPrefix":              uninterp("strings_HasPrefix"),
 		"strings.HasSuffix":              uninterp("strings_HasSuffix"),
 		"strings.Contains":               uninterp("strings_Contains"),
